@@ -28,7 +28,7 @@ import zlib
 
 from . import common, sessionlib
 
-KINDS = ('pass', 'failout', 'bind', 'probe', 'rebind', 'readg', 'leaveskip', 'leavereq', 'reportstyle', 'trail', 'swapout', 'filters', 'warns')
+KINDS = ('pass', 'failout', 'bind', 'probe', 'rebind', 'readg', 'leaveskip', 'leavereq', 'reportstyle', 'trail', 'swapout', 'filters', 'warns', 'reqsub', 'reqpkg')
 BOUNDS = {'quick': dict(docs=3, hist=4, limit=10000), 'thorough': dict(docs=3, hist=4, limit=120000)}
 _J = {}
 
@@ -46,6 +46,9 @@ def _one(raw):
         f.write(src)
     bad = []
     defaults0 = copy.deepcopy(directive.DEFAULT_RUNTIME_STATE)
+    cache = getattr(directive, '_MODNAME_EXISTS_CACHE', None)
+    if isinstance(cache, dict):
+        cache.clear()              # every history starts like a fresh process: no remembered answers about modules
     filters0 = list(warnings.filters)
     stdout0 = sys.stdout
     try:
@@ -137,7 +140,7 @@ def run(tier):
         if 'bad' in info:
             out.violation(sig(info), {'module_source': info['text'], 'history(index,env,predicted)': info['hist'], 'disagreements': info['bad']})
     common.cleanup_scratch()
-    for dev in ('ModuleDictAliased', 'ShallowDefaults', 'SharedRunstate', 'NoUnmatchedReset', 'NoFilterRestore'):
+    for dev in ('ModuleDictAliased', 'ShallowDefaults', 'SharedRunstate', 'NoUnmatchedReset', 'NoFilterRestore', 'NegativeAnswerSpreads'):
         sessionlib.deviation_must_fail(out, dev, kinds=KINDS, maxdocs=2, mindocs=1, maxhist=3, commands=('all',), fronts=('native',))
     out.exhaustive = not out.extra.get('replay_sampled', False)
     out.assumptions = ['the solo outcome and stdout of each kind are known by construction (the same templates pass the C10/C15 front-end checks)',
